@@ -141,8 +141,17 @@ func findings(rec *ev.Rec) exclusions {
 			return msg != ""
 		})
 	}
-	ex.shadow = pr("C09-operator-glyph-names", func(m *t1ref.Font) {
-		m.Glyphs = append(m.Glyphs, &t1ref.Glyph{Name: "end", WX: t1ref.I(1)})
+	ex.shadow = known.Probe(rec, "C09-operator-glyph-names", func() bool {
+		// a font with a glyph named "exch" is readable when that glyph is
+		// defined last, but the writer emits glyphs in sorted order
+		f1, err := type1.Read(bytes.NewReader(probeModel(func(m *t1ref.Font) {
+			m.Glyphs = append(m.Glyphs, &t1ref.Glyph{Name: "z", WX: t1ref.I(1)}, &t1ref.Glyph{Name: "exch", WX: t1ref.I(1)})
+		})))
+		if err != nil {
+			return true
+		}
+		_, msg := writeRead(f1, type1.FormatPFA)
+		return msg != ""
 	})
 	ex.newline = pr("C09-version-newline", func(m *t1ref.Font) {
 		m.Version = t1ref.Str{Present: true, Val: []byte("1\nstop")}
